@@ -106,6 +106,7 @@ type HistObs struct {
 	Crashed      bool       `json:"crashed"`
 	Hung         bool       `json:"hung"`
 	InternalErrs int        `json:"internal_errs"`
+	OpenTicks    []uint64   `json:"open_queue_ticks"` // returned queue ticks whose WhenQueue is open at the end
 	CrashMsg     string     `json:"crash_msg,omitempty"`
 	Extra        [][]string `json:"extra_tracers,omitempty"`
 	FinalTime    []uint64   `json:"final_time"`
@@ -430,6 +431,20 @@ func runHistory(in *HistInput) (obs *HistObs) {
 		obs.Calls = append(obs.Calls, HCallObs{Result: uint64(res), Time: m.Time(nil),
 			Active: activeIdx(), QTick: m.QueueTick(), NTx: len(obs.Txs), Err: errCode()})
 	}
+	// every queue tick handed to a handler must be resolved once the machine is idle
+	if !obs.Crashed && !obs.Hung {
+		for _, h := range hlog {
+			for _, r := range h.Results {
+				if r >= 2 {
+					select {
+					case <-m.WhenQueue(am.Result(r)):
+					default:
+						obs.OpenTicks = append(obs.OpenTicks, r)
+					}
+				}
+			}
+		}
+	}
 	// drain Machine.ErrInternal()
 drainErrs:
 	for {
@@ -577,8 +592,8 @@ func coqHCase(in *HistInput, obs *HistObs) string {
 			coqHKey(h.Key), h.Binding, coqNatList(h.Active), coqNList(h.Clock), joinMap(h.Results, coqResult, "; "), coqBool(h.Ret))
 	}, ";\n   "))
 	fmt.Fprintf(&b, "  tr_crashed := %s; tr_hung := %s; tr_fuel_ok := true |};\n", coqBool(obs.Crashed), coqBool(obs.Hung))
-	fmt.Fprintf(&b, " h_extra := %s; h_interr := %d%%nat; h_rerun := %d%%N |}", joinMap(obs.Extra, func(ev []string) string {
+	fmt.Fprintf(&b, " h_extra := %s; h_open_ticks := %s; h_interr := %d%%nat; h_rerun := %d%%N |}", joinMap(obs.Extra, func(ev []string) string {
 		return joinMap(ev, coqTev, "; ")
-	}, "; "), obs.InternalErrs, obs.Rerun)
+	}, "; "), coqNList(obs.OpenTicks), obs.InternalErrs, obs.Rerun)
 	return b.String()
 }
